@@ -242,11 +242,18 @@ fn fmt_params(key: &str) -> Value {
     json!({"textDocument": {"uri": drv::uri(key)}, "options": {"tabSize": 2, "insertSpaces": true}})
 }
 
+fn version_of(text: &str) -> i32 {
+    let h = text.bytes().fold(0x811c9dc5u32, |h, b| (h ^ b as u32).wrapping_mul(16777619));
+    1 + (h % 6) as i32
+}
+
 fn send_msg(srv: &Srv, m: &Value) {
     let key = m["key"].as_str().unwrap_or("");
     match m["t"].as_str() {
         Some("req") => srv.request(m["id"].as_i64().unwrap_or(0) as i32, "textDocument/formatting", fmt_params(key)),
-        Some("chg") => srv.notify("textDocument/didChange", json!({"textDocument": {"uri": drv::uri(key), "version": 2}, "contentChanges": [{"text": m["text"]}]})),
+        // document versions restart when the editor closes and re-opens a buffer, so a later change may
+        // carry a lower or an equal number: derived from the text (no draw from the PRNG)
+        Some("chg") => srv.notify("textDocument/didChange", json!({"textDocument": {"uri": drv::uri(key), "version": version_of(m["text"].as_str().unwrap_or(""))}, "contentChanges": [{"text": m["text"]}]})),
         Some("sav") => {
             let mut p = json!({"textDocument": {"uri": drv::uri(key)}});
             if !m["text"].is_null() { p["text"] = m["text"].clone(); }
